@@ -193,6 +193,32 @@ def main():
         except Exception as ex:
             out["oracle_bad"].append({"oracle": "argnum-algebra", "shape": list(sh), "error": repr(ex),
                                       "site": {"oracle": "argnum-algebra"}})
+    # ---- selection by name on short-lived functions (a history): every call must select by THIS function's signature ----
+    hist_bad = []
+    for it in range(40):
+        coef = float(rng.randint(2, 5))
+        if it % 2 == 0:
+            fn = lambda a_, b_, coef=coef: anp.sum(a_ * a_ * b_) * coef            # noqa: E731
+            pos = 1
+        else:
+            fn = lambda b_, extra_, a_, coef=coef: anp.sum(a_ * a_ * b_) * coef + extra_   # noqa: E731
+            pos = 0
+        a = onp.array([float(rng.randint(1, 3)) for _ in range(3)])
+        b = onp.array([float(rng.randint(1, 3)) for _ in range(3)])
+        args = (a, b) if it % 2 == 0 else (b, 1.0, a)
+        out["oracle_n"] += 1
+        try:
+            got = grad_named(fn, "b_")(*args)
+            want = grad(fn, pos)(*args)
+            if not (onp.shape(got) == onp.shape(want) and onp.all(got == want) and onp.all(want == a * a * coef)):
+                hist_bad.append({"iteration": it, "got": onp.asarray(got).tolist(), "want": onp.asarray(want).tolist()})
+        except Exception as ex:
+            hist_bad.append({"iteration": it, "error": repr(ex)})
+        del fn
+    dist("named-selection-history")
+    if hist_bad:
+        out["oracle_bad"].append({"oracle": "grad_named over a history of short-lived functions", "first": hist_bad[0],
+                                  "n_wrong": len(hist_bad), "site": {"oracle": "argnum-algebra-history"}})
     print(json.dumps(out))
 
 
